@@ -57,7 +57,7 @@ class ServerPlugin(Plugin):
     coq_targets = ("server/Corr.vo",)
     header = "From HD Require Import common.Base server.Model server.Spec server.Corr."
     shard = 200
-    impl_jobs = 4
+    impl_jobs = 8
     cs_type = "list (case * obs)"
     mon_fn = None
 
